@@ -560,6 +560,12 @@ func stateFoundObjectKeyBeginAfterNewLine(s *Scanner, c byte) state {
 }
 
 func stateFoundObjectValueBegin(s *Scanner, c byte) state {
+	if s.annotation == annotationNone && s.isCommentStart(c) {
+		// A user comment between the colon and the value (not in an annotation object).
+		s.switchToComment()
+		return scanContinue
+	}
+
 	r := stateBeginValue(s, c)
 	switch r { //nolint:exhaustive // It's okay.
 	case scanBeginLiteral:
@@ -839,6 +845,11 @@ func stateAfterObjectKey(s *Scanner, c byte) state {
 	}
 	if s.isAnnotationStart(c) {
 		s.switchToAnnotation()
+		return scanContinue
+	}
+	if s.annotation == annotationNone && s.isCommentStart(c) {
+		// A user comment between the key and the colon (not in an annotation object).
+		s.switchToComment()
 		return scanContinue
 	}
 
